@@ -622,7 +622,8 @@ def check_predict_wiring(ctx, cls, pred, call, drv):
     st = {}
 
     def thunk(ex):
-        kw = symbolic_hyperparams(ex, ctx.P, cls, {})
+        # the cost is an arbitrary user-defined cost object (its truth value, length, ... are unknown)
+        kw = symbolic_hyperparams(ex, ctx.P, cls, {"cost": lambda ex: abstract_scorer(ex, ctx.P, "skchange.costs.base.BaseCost", "user_cost", param="none")})
         obj = ex.new_object(cls, [], kw)
         obj.fields["_is_fitted"] = Num(None, (), "bool", cond=Cond.const(True))
         obj.fields["penalty_"] = Num(sym("penalty_"), (), "float")
@@ -650,6 +651,11 @@ def check_predict_wiring(ctx, cls, pred, call, drv):
             b = calls[-1].data["bound"]
             okb = isinstance(b.get("penalty"), Num) and nf_equal(b["penalty"].nf, sym("penalty_")) and isinstance(b.get("min_segment_length"), Num) and nf_equal(b["min_segment_length"].nf, sym("min_segment_length"))
             ctx.check(okb, "C02.g BINDING", "driver-arguments", calls[-1].loc(), "the driver receives the fitted penalty_ and the configured min_segment_length", found={k: valkey(v) for k, v in b.items() if k in ("penalty", "min_segment_length")})
+            # ... the cost the user configured (not a default substituted for it on some path)
+            cparam = next((q for q in drv.params if "cost" in q), None)
+            cv = b.get(cparam) if cparam else None
+            okc = isinstance(cv, ObjV) and cv.key == "user_cost"
+            ctx.check(okc, "C02.g BINDING", "driver-cost", calls[-1].loc(), "the driver minimises the cost object the user configured, on every path (a default substituted by a truth test of the object - `cost or L2Cost()` - replaces a user cost that is falsy, e.g. of length 0 before fit)", found=valkey(cv)[:80] if cv is not None else "nothing", expected="the user's cost object")
             # ... and the data itself: the values of the (normalised) input frame, not a transformed copy
             dparam = drv.params[0] if drv.params else None
             dv = b.get(dparam)
